@@ -594,18 +594,19 @@ func (s *scope) createInstance(descriptor *Descriptor) (any, error) {
 			stored = append(stored, regDescriptor)
 		}
 
-		// A field the constructor left nil is remembered as nil in the scope, as a
-		// nil return value of a multi-return constructor is: asking for it later must
-		// not run the constructor again and replace the instances of its siblings
-		if descriptor.Lifetime == Scoped {
-			s.rememberNilOutputs(descriptor, stored)
-		}
-
 		if primaryService == nil && len(stored) == 0 {
 			return nil, &ValidationError{
 				ServiceType: descriptor.Type,
 				Cause:       fmt.Errorf("result object produced no services"),
 			}
+		}
+
+		// A field the constructor left nil is remembered as nil in the scope, as a
+		// nil return value of a multi-return constructor is: asking for it later must
+		// not run the constructor again and replace the instances of its siblings.
+		// (Not when the construction failed as a whole: a failure is not cached.)
+		if descriptor.Lifetime == Scoped {
+			s.rememberNilOutputs(descriptor, stored)
 		}
 
 		return primaryService, nil
